@@ -554,9 +554,8 @@ def run_case1(env: Env, fn, schema, case, prefer_seq):
                     return {**res, "status": "foreign-input", "err": "the node's input is not the Var passed in", "node": node}
                 if v not in scope.var:
                     scope.var[v] = names[id(v)]
-        for i, v in enumerate(node.outputs):
-            if v is not None:
-                scope.var[v] = f"out_{i}"
+        for key, v in node.outputs.get_vars().items():  # keys: `field` / `field_i`
+            scope.var[v] = key
         protos = node.to_onnx(
             scope, build_subgraph=lambda n, key, g: env.onnx.helper.make_graph([], key, [], [])
         )
@@ -926,26 +925,16 @@ def call_request(env, info, pair, schema, case, r):
     sd = info["schemas"].get(pair.get("schema"))
     if sd is None:
         return None
-    KIND = {env.VarFieldKind.SINGLE: "s", env.VarFieldKind.OPTIONAL: "o", env.VarFieldKind.VARIADIC: "v"}
-    outs = []
-    i = 0
-    O = type(node.outputs)
-    for fld in dataclasses.fields(O):
-        k = KIND[O._get_field_type(fld)]
-        val = getattr(node.outputs, fld.name)
-        if k == "v":
-            outs.append({"k": "v", "v": [f"out_{i + j}" for j in range(len(val))]})
-            i += len(val)
-        else:
-            outs.append({"k": k, "v": None if val is None else f"out_{i}"})
-            i += 1
+    cls_info = info["classes"][f["cls"]]
+    n_fixed = sum(1 for _, k in cls_info["outputs"] if k != "variadic")
+    nvar = max(len(list(node.outputs)) - n_fixed, 0)
     c = dict(f)
     c["cls"] = info["classes"][f["cls"]]
     return {
         "kind": "call", "ctor": c,
         "supplied": {a: to_val(env, schema.attributes[a], v) for a, v in r["given"].items()},
         # minima from the *generated* schema table (what the theorems use), not from the live node
-        "args": r["args"], "mins": [sd["minInput"], sd["minOutput"]], "outputs": outs,
+        "args": r["args"], "mins": [sd["minInput"], sd["minOutput"]], "nvar": nvar,
     }
 
 
